@@ -37,6 +37,7 @@ func main() {
 	spec := flag.String("spec", "/verif/spec", "directory of reviewed expectation tables")
 	explain := flag.String("explain", "", "print a violations file in readable form and exit")
 	list := flag.Bool("list", false, "list registered properties")
+	genInputs := flag.Bool("gen-inputs", false, "print the declared-inputs table for the current tree (to be reviewed)")
 	flag.Parse()
 	specDir = *spec
 
@@ -74,6 +75,15 @@ func main() {
 		}
 	}
 	start := time.Now()
+	if *genInputs {
+		c, err := load(*repo, *tier, *goarch, false)
+		if err != nil {
+			fmt.Fprintln(os.Stderr, err)
+			os.Exit(2)
+		}
+		genInputSpec(c)
+		return
+	}
 	c, err := load(*repo, *tier, *goarch, false)
 	exit := 0
 	if err != nil {
